@@ -9,6 +9,7 @@ import (
 	"context"
 	"errors"
 	"fmt"
+	"os"
 	"sort"
 	"strings"
 	"testing"
@@ -348,7 +349,9 @@ func (h *verifRHarness) exec(op *verifROp, exp *verifROutcome, top bool) {
 	if !exp.OK && exp.Err != "other" && got != exp.Err {
 		h.fail("%s (snapshot head %s): failed with %q (class %s); the documented error class for this rejection is %s", op, exp.SnapID, err, got, exp.Err)
 	}
-	if attempts != exp.Attempts {
+	// VERIF_REFS_NO_SWAPCOUNT=1 switches the swap-count comparison off (sensitivity trials of the
+	// other oracles only)
+	if attempts != exp.Attempts && os.Getenv("VERIF_REFS_NO_SWAPCOUNT") == "" {
 		h.fail("%s: %d store-root swaps attempted, the optimistic loop must make %d here (outcome %s)", op, attempts, exp.Attempts, res)
 	}
 	if top {
